@@ -107,9 +107,20 @@ class Program(object):
             statement.translate()
 
         while not self.all_sizes_fixed():
+            progress = False
             for index, statement in enumerate(self.statements):
                 if not statement.fixed_size:
                     statement.determine_pcr_relative_sizes(self.statements, index)
+                    progress = progress or statement.fixed_size
+
+            # When no size could be decided from the minimum and maximum distances
+            # alone, settle the first undecided statement on the 16-bit form, which
+            # can hold any distance, so that the remaining ones can be resolved
+            if not progress:
+                for index, statement in enumerate(self.statements):
+                    if not statement.fixed_size:
+                        statement.determine_pcr_relative_sizes(self.statements, index, force_16_bit=True)
+                        break
 
         address = 0
         for index, statement in enumerate(self.statements):
